@@ -118,6 +118,21 @@ Print Assumptions C20_iknp_chunks_total.
 
 (* ---- bit and string multiplication of the BMR player ---- *)
 
+(* Note on the OT: the gadget theorems below are over an IDEAL 1-out-of-2 OT
+   (hypothesis [ot w c = pick w c]: every transfer delivers the chosen label
+   of the offered wire, independently of all earlier transfers).  Which ot.OT
+   implementation runs below FxSend/FxReceive/FxkSend/FxkReceive, and any
+   per-session state it keeps, is outside the model.  The tie is made by the
+   harness call by call: c20 runs histories of >= 35 transfers on ONE
+   initialised pair (Fx and Fxk interleaved, single-wire as bmr.Player does,
+   with plain transfers of 1, 3, 8, 9, 17 wires in between) over every
+   chosen-message ot.OT the module exports — CO, RSA, COT semi-honest, COT
+   malicious, COT shared (ot.ROT is a random OT whose Send overwrites the
+   wires; the gadgets do not apply to it) — records the offered wire, flag
+   and delivered label of every call, checks delivered = pick wire flag and
+   the share relation on the real outputs of every call, and gives every
+   call to the model as a correspondence case. *)
+
 (* Every OT that delivers the chosen label, every 4-byte random label rl of
    the sender, a, b in {0,1}: FxSend returns r, FxReceive returns xb, both
    bits, with r xor xb = a*b. *)
